@@ -12,7 +12,9 @@ tier = os.environ.get("MATRIX_TIER", "quick")
 
 def one(sid):
     meta = json.load(open(os.path.join(ROOT, "seeded", sid, "meta.json")))
-    checks = [c.split()[0] for c in meta["checks"]["caught_by"]] or [meta["property"]]
+    if meta.get("neutralised_by"):
+        return sid, {}, "neutralised by " + meta["neutralised_by"]["commit"]
+    checks = [c.split()[0] for c in meta["checks"]["caught_by"] if "(thorough)" not in c] or [meta["property"]]
     env = dict(os.environ, VERIF_NPROC=str(max(2, 16 // J)))
     p = subprocess.run([sys.executable, os.path.join(ROOT, "tools", "mutant_wt.py"), os.path.join(ROOT, "seeded", sid, "patch.diff"), ",".join(checks), tier],
                        capture_output=True, text=True, env=env)
@@ -32,8 +34,8 @@ missed = 0
 for sid, res, err in out:
     caught = [c for c, rc in res.items() if rc == 1]
     other = ["%s:rc%d" % (c, rc) for c, rc in res.items() if rc != 1]
-    st = "CAUGHT" if caught else "MISSED"
-    missed += not caught
+    st = "CAUGHT" if caught else ("N/A   " if err.startswith("neutralised") else "MISSED")
+    missed += (not caught and not err.startswith("neutralised"))
     lines.append("%-6s %s by %s%s%s" % (sid, st, ",".join(caught) or "-", ("  (not by " + ",".join(other) + ")") if other else "", ("  " + err.replace("\n", " | ")) if err else ""))
 open(os.path.join(ROOT, "seeded", "MATRIX.txt"), "w").write("tier=%s head=%s\n" % (tier, subprocess.run(["git", "-C", ROOT, "rev-parse", "--short", "HEAD"], capture_output=True, text=True).stdout.strip()) + "\n".join(lines) + "\n")
 print("\n".join(lines))
